@@ -21,14 +21,16 @@ ASSUME = [
     'bounds: model constants of the listed configurations; larger values only by replay / random walks',
 ]
 # clauses evaluated per property (C01e = the Established-entry clause of C01, needs trace history)
-PROPSETS = {'C01': {'C01', 'C01e'}, 'C02': {'C02'}, 'C03': {'C03'}, 'C05': {'C05'}, 'C10': {'C10'}, 'C12': {'C12'},
+PROPSETS = {'C16': {'C16'}, 'C01': {'C01', 'C01e'}, 'C02': {'C02'}, 'C03': {'C03'}, 'C05': {'C05'}, 'C10': {'C10'}, 'C12': {'C12'},
             'C13': {'C13'}, 'C18': {'C18'}}
-MODEL_PROPS = {'C01': {'C01'}, 'C02': {'C02'}, 'C10': {'C10'}, 'C12': {'C12'}, 'C13': {'C13'}}
+MODEL_PROPS = {'C16': {'C16'}, 'C01': {'C01'}, 'C02': {'C02'}, 'C10': {'C10'}, 'C12': {'C12'}, 'C13': {'C13'}}
 
 
 def plans(prop, tier):
     """[(name, consts, constraint, options)] - model configurations explored for this property and tier."""
     base = S.consts()
+    if prop in ('C16', 'C18'):
+        base = S.consts(RESTS=['SEND_UPDATE', 'SEND_RR', 'READ_STATE', 'BADCRED_STOP', 'BADCRED_SEND'])
     quick = [('base', base, 'Bound', dict(per_class=1, nrandom=300, depth=80))]
     if tier == 'quick':
         if prop in ('C02', 'C03', 'C12', 'C13'):
@@ -85,6 +87,9 @@ def corrupt(prop, lines):
             d['st'] = 'IDLE'
         elif prop == 'C02' and d['cls'] == 'CONN_FAIL' and d['pend'] > 0 and d['live'] == 0:
             d['pend'] = 0
+        elif prop == 'C16' and d['cls'] == 'STOP' and d['rest']['status'] == 200:
+            d['cls'] = 'REST'
+            d['rest']['cred'] = 'none'
         elif prop == 'C05' and any(o['type'] == 'OPEN' for o in d['out']):
             for o in d['out']:
                 if o['type'] == 'OPEN':
@@ -165,8 +170,8 @@ def run(prop, tier, seed):
             if st_self is None:
                 st_self = selftest(prop, r['ndjson'], workdir)
             os.remove(r['ndjson'])
-        if prop in ('C05', 'C10'):
-            nd, nscen = S.run_scenarios(prop, tier, seed, workdir)
+        if prop in ('C05', 'C10', 'C16', 'C18'):
+            nd, nscen = S.run_scenarios('C16' if prop == 'C18' else prop, tier, seed, workdir)
             rej, vst = S.validate(nd, PROPSETS[prop])
             job = {'wcfg': {'scenario': prop}, 'cfgline': {}}
             nrej = S.judge(prop, rej, nd, job, v)
